@@ -70,6 +70,9 @@ class Pattern:
         return None
 
 
+ANON_MATCHES_ABSENT = False
+
+
 def canon(value) -> str:
     if isinstance(value, ast.AST):
         return ast.unparse(value)
@@ -99,6 +102,8 @@ def match_node(p: Pattern, pat, node, env):
         if isinstance(pat, ast.Expr) and not isinstance(node, ast.stmt):
             return
         if isinstance(pat, ast.Name) and isinstance(node, (list, type(None))):
+            if node is None and w.name is None and ANON_MATCHES_ABSENT:
+                yield env  # C14 only: pyrefact documents {{...}} as "matches everything"; either reading is accepted there
             return  # a wildcard stands for a syntax tree, not for an absent field or a list
         yield from _bind(w, node, env)
         return
